@@ -114,3 +114,18 @@ Theorem op_stacked_to_var_spec (o : qop Qc_OF) (sd : Qc) (st : list Qc) :
 Proof. unfold op_stacked_to_var. rewrite fl_flag_code, Nat2Z.id.
   destruct o as [d f v|d f h|d f v|d f h]; cbn [qop_code qop_d qop_flag Z.eqb Pos.eqb qop_stacked_to_var out_opt]; try reflexivity;
   try (now destruct (povm_stacked_to_var Qc_OF d sd f st)). Qed.
+
+(* ------------------------------------------------------------------ the index wrappers (idx_table / inv_table / idx / numvar are maps of these over ranges) *)
+Theorem exec_numvar_spec (o : qop Qc_OF) :
+  op_numvar [qop_code o; Z.of_nat (qop_d o); Z.of_nat (qop_m o); flag_code (qop_flag o)] [] = Ok [qz (qop_num_variables Qc_OF o)].
+Proof. unfold op_numvar, numvar. rewrite fl_flag_code.
+  destruct o; cbn [qop_code qop_d qop_m qop_flag Z.eqb Pos.eqb qop_num_variables]; reflexivity. Qed.
+(* the flat position the table reports for variable i is the model's qop_flat_index *)
+Theorem exec_idx_flat_spec (o : qop Qc_OF) (i : Z) :
+  idx_flat (qop_code o) (Z.of_nat (qop_d o))
+           (idx_fwd (qop_code o) (Z.of_nat (qop_d o)) (Z.of_nat (qop_m o)) (qop_flag o) i) = qop_flat_index Qc_OF o i.
+Proof. destruct o as [d f v|d f h|d f v|d f h]; unfold idx_flat, idx_fwd; cbn [qop_code qop_d qop_m qop_flag Z.eqb Pos.eqb qop_flat_index].
+  - reflexivity.
+  - destruct (gate_index_of_var (Z.of_nat d) f i) as [r c] eqn:E. cbn [nth]. reflexivity.
+  - destruct (povm_index_of_var (Z.of_nat d * Z.of_nat d) i) as [x a] eqn:E. cbn [nth]. reflexivity.
+  - destruct (mproc_index_of_var (Z.of_nat d) (Z.of_nat (length h)) f i) as [[x r] c] eqn:E. cbn [nth]. reflexivity. Qed.
